@@ -754,6 +754,179 @@ def reg_gray(R):
     )
 
 
+# =========================================================================== ToImageStack.__call__ / transform_and_save / save_tif (plumbing only)
+TRANSFORM_KEY = f"{TR}:ToImageStack.transform"
+SAVE_TIF_KEY = f"{TR}:ToImageStack.save_tif"
+PAGE_OPTIONS = dict(contiguous=True, photometric="minisblack", metadata={"unit": "um", "axes": "ZXY"})  # + resolution = the `resolution` argument
+
+
+def transform_loop():
+    """the frame loop of ToImageStack.transform, cut by the same invariant as in its own contract (contracts/C20.py: reg_transform)"""
+    return {0: dict(invariant=[("frames-so-far", B.closed(lambda E, v, o: B.tr_frames(E, v, o, k=v["_k0"])))], types={"__yield__": "ref"}, modifies=["__yield__"])}
+
+
+def page_hook(E, page):
+    """ghost code run at every tif.write(...): appends (frame, options-as-documented?) to the symbolic page log"""
+    want_res = E.ghost["want_resolution"]
+    kw = page["kwargs"]
+    md = kw.get("metadata")
+    res = kw.get("resolution")
+    ok = (page["nargs"] == 1 and set(kw) == {"contiguous", "photometric", "resolution", "metadata"} and kw["contiguous"] is True
+          and kw["photometric"] == PAGE_OPTIONS["photometric"] and isinstance(md, PDict) and md.items == PAGE_OPTIONS["metadata"]
+          and (res is want_res or (isinstance(res, tuple) and isinstance(want_res, tuple) and len(res) == len(want_res) and all(a is b or a == b for a, b in zip(res, want_res))))
+          and page["file"] is E.ghost["want_file"])
+    data = page["data"]
+    if not (isinstance(data, Sym) and data.kind == "ref"):
+        raise X.Unsupported("TiffWriter.write of a value that is not a frame reference")
+    E.models.LIST_METHODS["append"](E, E.ghost["page_log"], [(data, 1 if ok else 0)], {})
+
+
+def pages_setup(S, fname, want_resolution):
+    log = PList.fresh(["ref", "int"], n=z3.IntVal(0), name="pages")
+    S.eng.ghost.update(page_log=log, tiff_page_hook=page_hook, want_resolution=want_resolution, want_file=fname)
+    return log
+
+
+def page_log_of(E):
+    return E.ghost["page_log"]
+
+
+def pages_are(E, count, frame_at, upto=None):
+    """the page log holds exactly `upto` (default: count) pages; page j is frame_at(j) written with the documented options"""
+    log = page_log_of(E)
+    k = count if upto is None else upto
+    j = z3.Int(fresh_name("j"))
+    return z3.And(zint(log.n) == k, z3.ForAll([j], z3.Implies(z3.And(0 <= j, j < k), z3.And(z3.Select(log.cols[0], j) == frame_at(j), z3.Select(log.cols[1], j) == 1))))
+
+
+def frames_view(fr):
+    cols, n = B.lview(fr)
+    return (lambda j: z3.Select(cols[0], j)) if cols is not None else (lambda j: z3.IntVal(0)), n
+
+
+def writer_protocol(E, fname):
+    w = [(nm, p) for nm, p in E.call_log if nm.startswith(("tifffile.", "TiffWriter.", "TiffFile."))]
+    return [nm for nm, _ in w] == ["tifffile.TiffWriter", "TiffWriter.__enter__", "TiffWriter.__exit__"] and w[0][1]["file"] is fname and w[0][1]["kwargs"] == {}
+
+
+def save_tif_loop(frames_of):
+    def inv(E, v, o):
+        at, n = frames_view(frames_of(E, v))
+        return pages_are(E, n, at, upto=to_z3(v["_k0"], "int"))
+
+    return {0: dict(invariant=[("one-page-per-frame-so-far-in-order-with-the-documented-options", B.closed(inv))], modifies=[page_log_of])}
+
+
+def rendered_frame(E):
+    """frame j of transform(x): uint8(255 * red channel) of the block sampler j takes of THE scene built from x"""
+    p, scene = E.ghost.get("samplers_result"), E.ghost.get("scene_result")
+    return (lambda j: B.FRAME(B.SAMPLE(z3.Select(p.cols[0], j), scene.z), 0, 0, z3.RealVal(255), B.DT_CODE["uint8"])), zint(p.n)
+
+
+def reg_to_image_stack_plumbing(R):
+    # ---- save_tif
+    def st_setup(resolution):
+        def f(S):
+            fname = sym_name(S)
+            frames = S.plist("ref", name="frames")
+            frames.frozen = True
+            d = dict(fname=fname, frames=Iter(frames), __ghost__=dict(frames=frames))
+            if resolution is not None:
+                d["resolution"] = resolution(S)
+            pages_setup(S, fname, d.get("resolution", (1, 1)))
+            return d
+
+        return f
+
+    def st_pages(E, v, o):
+        at, n = frames_view(E.spec_extra["frames"])
+        return pages_are(E, n, at)
+
+    R.add(
+        SAVE_TIF_KEY,
+        prop="C20",
+        variants={"default-resolution": st_setup(None), "resolution-given": st_setup(lambda S: (S.real("rx"), S.real("ry")))},
+        loops=save_tif_loop(lambda E, v: E.spec_extra["frames"]),
+        ensures=[
+            ("one-page-per-frame-in-order-contiguous-minisblack-resolution-unit-um-axes-ZXY", st_pages),
+            ("opens-the-named-file-once-and-closes-it", lambda E, v, o: writer_protocol(E, v["fname"])),
+            "returns-nothing :: result is None",
+        ],
+        notes="any number of frames (loop cut by an invariant over a ghost page log); tifffile.TiffWriter is a recording model; that tifffile turns contiguous "
+              "equally shaped pages into ONE series of shape (Z, X, Y) with the metadata's axes string is tifffile's behaviour (cross-checked natively, see report)",
+    )
+
+    # ---- transform_and_save
+    def ts_setup(kw):
+        def f(S):
+            d = B.tr_setup(S)
+            ranges = (B.box3(S, "rlo"), B.box3(S, "rhi")) if kw else None
+            fname = sym_name(S)
+            pages_setup(S, fname, (1, 1))
+            return dict(self=d["self"], fname=fname, x=d["x"], verbose=False, kwargs=PDict({"ranges": ranges} if kw else {}), __ghost__=dict(ranges=ranges))
+
+        return f
+
+    def as_transform(E, v):
+        vv = dict(v)
+        vv["ranges"] = E.spec_extra.get("ranges")
+        return vv
+
+    def ts_pages(E, v, o):
+        at, n = rendered_frame(E)
+        return pages_are(E, n, at)
+
+    def ts_box(which):
+        return lambda E, v, o: B.tr_box(which)(E, as_transform(E, v), o)
+
+    plumbing = [
+        ("one-scene-built-from-this-tree", lambda E, v, o: B.tr_scene(E, v, o)),
+        ("samplers-requested-once-with-the-default-half-voxel-offset", lambda E, v, o: B.tr_samplers_call(E, v, o)),
+        ("box-lower-corner-is-below-every-node-sphere-(or-the-requested-range)", ts_box("lower")),
+        ("box-upper-corner-is-above-every-node-sphere-(or-the-requested-range)", ts_box("upper")),
+    ]
+    R.add(
+        f"{TR}:ToImageStack.transform_and_save",
+        prop="C20",
+        variants={"verbose=False": ts_setup(False), "verbose=False,ranges-forwarded": ts_setup(True)},
+        requires=[("resolution-positive", B.res_positive)],
+        inlined_loops={TRANSFORM_KEY: transform_loop(), SAVE_TIF_KEY: save_tif_loop(lambda E, v: v["frames"])},
+        ensures=[
+            ("page-j-is-the-uint8-frame-of-z-slice-j-of-this-tree-in-slice-order-axes-ZXY-resolution-(1,1)", ts_pages),
+            ("opens-the-named-file-once-and-closes-it", lambda E, v, o: writer_protocol(E, v["fname"])),
+        ] + plumbing + ["returns-nothing :: result is None"],
+        notes="the saved stack goes through ToImageStack.save_tif (tifffile.TiffWriter, one page per z slice), NOT through save_tiff; transform and save_tif are inlined, "
+              "their loops cut by the invariants of their own contracts; verbose=True only adds print / tqdm / time.time (not modelled)",
+    )
+
+    # ---- __call__
+    def call_setup(S):
+        d = B.tr_setup(S)
+        return dict(self=d["self"], x=d["x"], __ghost__=dict(ranges=None))
+
+    def call_stack(E, v, o):
+        cs = calls(E, "np.stack")
+        if len(cs) != 1 or cs[0]["axis"] != 0:
+            return False
+        L, r = cs[0]["frames"], v["result"]
+        at, n = rendered_frame(E)
+        j = z3.Int(fresh_name("j"))
+        if not (isinstance(r, Sym) and r.z.eq(X.STACK0(L.cols[0], zint(L.n)))):
+            return False
+        return z3.And(zint(L.n) == n, z3.ForAll([j], z3.Implies(z3.And(0 <= j, j < n), z3.Select(L.cols[0], j) == at(j))))
+
+    R.add(
+        f"{TR}:ToImageStack.__call__",
+        prop="C20",
+        variants={"any-tree": call_setup},
+        requires=[("resolution-positive", B.res_positive)],
+        inlined_loops={TRANSFORM_KEY: transform_loop()},
+        ensures=[("result-is-the-frames-of-all-z-slices-stacked-along-a-new-FIRST-axis-(Z,X,Y)-in-slice-order", call_stack)] + plumbing
+        + [("box-is-tight-to-less-than-one-unit", ts_box("tight")), ("box-corners-are-whole-numbers", ts_box("integral"))],
+        notes="np.stack(list(transform(x, verbose=False)), axis=0): transform is inlined (its loop cut by the invariant of its own contract)",
+    )
+
+
 def register(R):
     reg_ndarray_access(R)
     reg_nrrd(R)
@@ -761,7 +934,90 @@ def register(R):
     reg_terafly_bits(R)
     reg_read_imgs(R)
     reg_gray(R)
+    reg_to_image_stack_plumbing(R)
+
+
+# =========================================================================== lemmas over the contracts' clauses
+def read_layout(axes):
+    """file axis that lands on result axis k — the rule TiffImageStack's clauses use (contracts/C20.py: tf_layout)"""
+    return sorted(range(len(axes)), key=lambda p: B.ORDER[axes[p]])
 
 
 def lemmas():
-    return []
+    """Round trips, stated over uninterpreted arrays D (data given to the writer), W (the file), Rd (what the reader holds):
+    hypotheses are EXACTLY the writer's and the reader's postconditions (save_tiff: st_shape / st_voxels; TiffImageStack: tf_shape / tf_voxels with
+    NDArrayImageStack's rescaling), the goal is the property's clause: same (X, Y, Z, C) shape, voxel = documented rescaling of the original voxel."""
+    I, Rs = z3.IntSort(), z3.RealSort()
+    D = z3.Function("rt2_data", I, I, I, I, Rs)
+    W = z3.Function("rt2_file", I, I, I, I, Rs)
+    Rd = z3.Function("rt2_read", I, I, I, I, Rs)
+    Xn, Yn, Zn, Cn = z3.Ints("rt2_X rt2_Y rt2_Z rt2_C")
+    out = []
+    allk = B.FLOATS + B.UINTS
+    for s in allk:
+        for d in [None] + allk:
+            file_dt = s if d is None else d
+            for r in (s,) if d is not None else (s, "float32"):  # read back in the original dtype (and with read_imgs' default for an as-is save)
+                d_cls = None if d is None else getattr(np, d)
+                wr = B.save_expected(s, d_cls)
+                rdx = B.load_expected(file_dt, getattr(np, r))
+                wsh = [Zn, Xn, Yn, Cn]  # st_shape: the file is (Z, X, Y, C)
+                h_save = B.forall_idx(wsh, lambda ix: W(*ix) == wr(D(ix[1], ix[2], ix[0], ix[3])))  # st_voxels
+                src_of = read_layout("ZXYC")  # st_axes: the writer's axes string
+                rsh = [wsh[p] for p in src_of]  # tf_shape
+
+                def rd(ix, _src=src_of, _rdx=rdx):
+                    fx = [None] * 4
+                    for k, p in enumerate(_src):
+                        fx[p] = ix[k]
+                    return Rd(*ix) == _rdx(W(*fx))  # tf_voxels
+
+                h_read = B.forall_idx(rsh, rd)
+                goal = z3.And(rsh[0] == Xn, rsh[1] == Yn, rsh[2] == Zn, rsh[3] == Cn,
+                              B.forall_idx([Xn, Yn, Zn, Cn], lambda ix, _w=wr, _r=rdx: Rd(*ix) == _r(_w(D(*ix)))))
+                out.append((f"tiff-round-trip-(X,Y,Z,C)-of-any-extents[{s}->save:{'as-is' if d is None else d}->read:{r}]", [h_save, h_read], goal))
+    # a 3-D input gains C = 1 on the way (st_shape with in4), and comes back as (X, Y, Z, 1)
+    D3 = z3.Function("rt2_data3", I, I, I, Rs)
+    wr, rdx = B.save_expected("uint8", None), B.load_expected("uint8", np.float32)
+    wsh = [Zn, Xn, Yn, z3.IntVal(1)]
+    h_save = B.forall_idx(wsh, lambda ix: W(*ix) == wr(D3(ix[1], ix[2], ix[0])))
+    src_of = read_layout("ZXYC")
+    rsh = [wsh[p] for p in src_of]
+    h_read = B.forall_idx(rsh, lambda ix: Rd(*ix) == rdx(W(ix[2], ix[0], ix[1], ix[3])))
+    out.append(("tiff-round-trip-of-a-3-D-stack-gives-(X,Y,Z,1)[uint8->as-is->float32]", [h_save, h_read],
+                z3.And(rsh[0] == Xn, rsh[1] == Yn, rsh[2] == Zn, rsh[3] == 1, B.forall_idx([Xn, Yn, Zn, 1], lambda ix: Rd(*ix) == rdx(wr(D3(ix[0], ix[1], ix[2])))))))
+
+    # the documented quantisation, with the conversion to an unsigned type read as C truncation (what `astype` does for in-range values)
+    x, v = z3.Int("rt2_x"), z3.Real("rt2_v")
+    t = z3.Real("rt2_t")
+    for u in B.UINTS:
+        m = B.UMAX[u]
+        cast = B.CAST("float64", u)
+        trunc = z3.ForAll([t], z3.Implies(z3.And(t >= 0, t < m + 1), cast(t) == z3.ToReal(z3.ToInt(t))))
+        back = B.load_expected("float64", getattr(np, u))(B.save_expected(u, np.float64)(z3.ToReal(x)))
+        out.append((f"{u}->float64-file->{u}-gives-back-every-value-exactly-when-the-cast-truncates", [trunc, x >= 0, x <= m], back == z3.ToReal(x)))
+        q = B.save_expected("float64", getattr(np, u))(v)  # value stored in the file
+        back = B.load_expected(u, np.float64)(q)
+        out.append((f"float64-in-[0,1]->{u}-file->float64-is-within-one-step-1/{m}-below-the-original-when-the-cast-truncates", [trunc, v >= 0, v <= 1],
+                    z3.And(q >= 0, q <= m, back <= v, v - back < B.rq(1, m))))
+
+    # the rasteriser's file (ToImageStack.save_tif): Z pages F_z of shape (X, Y) written contiguously with axes ZXY are ONE series S[z, x, y] = F_z[x, y]
+    # (tifffile's behaviour: hypothesis); TiffImageStack's clauses for a 3-D file with axes ZXY then give (X, Y, Z, 1) with voxel [x, y, z, 0] = F_z[x, y]
+    F = z3.Function("rt2_frame", I, I, I, Rs)
+    S3 = z3.Function("rt2_series", I, I, I, Rs)
+    ssh = [Zn, Xn, Yn]
+    h_series = B.forall_idx(ssh, lambda ix: S3(*ix) == F(*ix))
+    src_of = read_layout("ZXY")
+    rsh = [ssh[p] for p in src_of] + [z3.IntVal(1)]
+    rdx = B.load_expected("uint8", np.float32)
+
+    def rd3(ix):
+        fx = [None] * 3
+        for k, p in enumerate(src_of):
+            fx[p] = ix[k]
+        return Rd(*ix) == rdx(S3(*fx))
+
+    h_read = B.forall_idx(rsh, rd3)
+    out.append(("rasterised-stack-saved-page-by-page-with-axes-ZXY-reads-back-as-(X,Y,Z,1)-voxel-[x,y,z,0]-from-page-z-[x,y]", [h_series, h_read],
+                z3.And(rsh[0] == Xn, rsh[1] == Yn, rsh[2] == Zn, rsh[3] == 1, B.forall_idx([Xn, Yn, Zn, 1], lambda ix: Rd(*ix) == rdx(F(ix[2], ix[0], ix[1]))))))
+    return out
